@@ -291,17 +291,18 @@ class Context:
             raise ContextIsLockedException
         self.locked = True
 
-        # this is the place to insert proper schedulers
-        if allowLocal or isinstance(self._pool, DummyPool):
-            map_result = self._runJob_local(rdd, func, partitions)
-        else:
-            map_result = self._runJob_distributed(rdd, func, partitions)
+        try:
+            # this is the place to insert proper schedulers
+            if allowLocal or isinstance(self._pool, DummyPool):
+                map_result = self._runJob_local(rdd, func, partitions)
+            else:
+                map_result = self._runJob_distributed(rdd, func, partitions)
 
-        result = (resultHandler(map_result) if resultHandler is not None
-                  else list(map_result))
-
-        # release lock
-        self.locked = False
+            result = (resultHandler(map_result) if resultHandler is not None
+                      else list(map_result))
+        finally:
+            # release lock, also when a task or the result handler raised
+            self.locked = False
 
         return result
 
